@@ -1,4 +1,5 @@
 import FlatModel.Driver.Engine
+import FlatModel.Model.Forms
 /-! Builders for the per-entry driver hooks (`Extra`): which forms exist, how read items answer. -/
 namespace FC
 open Region
@@ -99,12 +100,20 @@ def sliceItemOp (r : SliceRegion R O) (i : Nat × Nat) (borrowed : Bool) (op arg
 
 /-- `Push<ReadSlice>`: element by element through the inner region's read items -/
 def slicePushItem (d s : SliceRegion R O) (i : Nat × Nat) (borrowed : Bool) : Option (SliceRegion R O × (Nat × Nat)) :=
-  match (sliceItem s i borrowed).bind ReadSlice.iter with
+  match sliceItem s i borrowed with
   | none => none
-  | some vs => push d vs
+  | some x => d.pushItem x
 
 def Extra.slice (forms : List String) : Extra (SliceRegion R O) (List V) (Nat × Nat) where
-  pushForm f r v := if forms.contains f then some (push r v) else none
+  pushForm f r v :=
+    if !forms.contains f then none
+    else if f == "itemowned" then some (r.pushItem (ReadSlice.borrowed v))
+    else if f == "item" then
+      -- the item is read from a scratch region of the same type holding just this value
+      some (match push (Region.default : SliceRegion R O) v with
+        | none => none
+        | some (tmp, i) => r.pushItem (ReadSlice.backed tmp i.1 i.2))
+    else some (push r v)
   itemOp := sliceItemOp
   pushItem d s i b := some (slicePushItem d s i b)
 end Slice
@@ -123,7 +132,10 @@ def colsItemOp (r : ColumnsRegion R I O) (k : Nat) (borrowed : Bool) (op arg : S
   | some x => seqOp x.len x.isEmpty x.get x.iter x.cloneOnto op arg
 
 def Extra.columns (forms : List String) : Extra (ColumnsRegion R I O) (List V) Nat where
-  pushForm f r v := if forms.contains f then some (push r v) else none
+  pushForm f r v :=
+    if !forms.contains f then none
+    else if f == "iter" then some (r.pushIter v)
+    else some (push r v)
   itemOp := colsItemOp
   pushItem d s k b := some (match (colsItem s k b).bind ReadColumns.iter with | none => none | some vs => push d vs)
 end Columns
